@@ -683,13 +683,73 @@ def _literals(ctx, SPEC):
 
     def writers():
         body = ctx.hir(ENC + "::raw_literals")
-        sl = _write_slots(ctx, body, "writer")
-        got = [(w, d.get("always")) for w, d in sl]
-        sp = lh["raw_rle"]["3"]
-        want = [(2, "0"), (2, "3"), (sp["regen"][1], "(literals.len() as u32)")]
-        norm = [(w, str(int(v, 0)) if v and v.replace("0b", "").isdigit() or (v or "").startswith("0b") else v) for w, v in got]
-        ctx.check(norm == want, R, "writer::raw_literals", body["file"],
-                  "raw literals header must be type 0, size format 3, 20-bit size", observed=norm, expected=want)
+        # Every way through the function writes  type(2 bits) = 0, a size format, the regenerated size = literals.len()
+        # in the width that format announces (RFC 8878 3.1.1.3.1.1: `?0` one format bit + 5 size bits, `01` 12 bits,
+        # `11` 20 bits), and a format narrower than 20 bits only under a length range that fits it.  One row per arm of a
+        # `match literals.len()`; without one, the single row must be the 20-bit form (blocks are at most 128 KiB).
+        cz = hq.Canon(body)
+
+        def wval(x):
+            n = hq.peel(x["args"][0])
+            v = H.lit_val(n)
+            if isinstance(v, int) and not isinstance(v, bool):
+                return v
+            t = cz(n)
+            while t.startswith("(") and t.endswith(")") and " as " in t and t.count("(") == t.count(")"):
+                inner = t[1:t.rindex(" as ")]
+                if inner.count("(") != inner.count(")"):
+                    break
+                t = inner
+            return "len" if t == "core::slice::len($0)" else t
+
+        def wr(n):
+            xs = [x for x in hq.find(n, lambda x: x.get("k") == "MethodCall" and x["name"] == "write_bits" and
+                                     hq.peel(x["recv"]).get("k") == "Local" and hq.peel(x["recv"])["name"] == "writer")]
+            xs.sort(key=lambda x: x["sp"][0])
+            out = []
+            for x in xs:
+                w = H.lit_val(x["args"][1])
+                if not isinstance(w, int):
+                    raise Anchor("write_bits with non-literal width in raw_literals")
+                out.append((w, wval(x)))
+            return out
+        ms = [m for m in hq.find(body["body"], lambda x: x.get("k") == "Match" and x.get("src") == "match")]
+        if len(ms) > 1:
+            raise Anchor("more than one match in raw_literals")
+        rows = []
+        if ms:
+            m = ms[0]
+            if cz(m["scrut"]) != "core::slice::len($0)":
+                raise Anchor("raw_literals matches on something else than literals.len(): %s" % cz(m["scrut"]))
+            allw = wr(body["body"])
+            inner = [set(id(x) for x in hq.find(a["body"], lambda x: x.get("k") == "MethodCall" and x["name"] == "write_bits")) for a in m["arms"]]
+            pre = [x for x in hq.find(body["body"], lambda x: x.get("k") == "MethodCall" and x["name"] == "write_bits")
+                   if not any(id(x) in s_ for s_ in inner)]
+            before = [x for x in pre if x["sp"][0] < m["sp"][0]]
+            after = [x for x in pre if x["sp"][0] > m["sp"][1]]
+            for ranges, guard, abody, arm in T.arms(m):
+                if guard is not None:
+                    raise Anchor("guarded arm in raw_literals")
+                if T.diverges(abody):
+                    continue
+                rows.append((ranges, sum((wr(x) for x in before), []) + wr(abody) + sum((wr(x) for x in after), [])))
+        else:
+            rows.append((None, wr(body["body"])))
+        legal = {(1, 0): 5, (2, 1): 12, (2, 3): 20}        # (format width, format value) -> size bits
+        bad = []
+        for ranges, row in rows:
+            ok = len(row) == 3 and row[0] == (2, 0) and legal.get((row[1][0], row[1][1])) == row[2][0] and row[2][1] == "len" and \
+                lh["raw_rle"][str(row[1][1] if row[1][0] == 2 else 0)]["regen"][1] == row[2][0]
+            if ok and ranges is None:
+                ok = row[2][0] == 20
+            elif ok:
+                ok = all(0 <= lo and hi < (1 << row[2][0]) for lo, hi in ranges)
+            if not ok:
+                bad.append({"lengths": ranges or "all others", "writes": row})
+        ctx.check(not bad and rows, R, "writer::raw_literals", body["file"],
+                  "raw literals header must be type 0 (2 bits), then a size format and the literal count in the width that format announces "
+                  "(`0`+5 bits, `01`+12 bits, `11`+20 bits), a narrow format only for lengths that fit it", observed=bad or [r for _, r in rows],
+                  expected="[(2, 0), (2, 3), (20, len)] or one such row per length range")
         ab = [x for x in hq.find(body["body"], lambda x: x.get("k") == "MethodCall" and x["name"] == "append_bytes")]
         ctx.check(len(ab) == 1 and H.show(ab[0]["args"][0]) == "literals", R, "writer::raw_literals::payload", body["file"],
                   "raw literals follow the header unchanged")
